@@ -905,8 +905,9 @@ def shard_interleave(st, da, db):
                         st.violation(classify_il(d, c, ref, g), {"family": "interleave", "docs": {da: pool()[da], db: pool()[db]},
                                      "a": [da, ca], "b": [db, cb], "schedule": sched, "which": who},
                                      fd.get("expected", fd), fd.get("observed", fd), f"iterator {who} of schedule {sched} yields other pages than alone")
-                if first:
-                    st.sample({"family": "interleave", "a": da, "b": db, "schedule": sched})
+                if first and (da, db) == (DOCS[0], DOCS[1]):
+                    st.sample({"family": "interleave", "a": da, "b": db, "schedule": "ABABAB", "caching": [ca, cb],
+                               "compared_with": "pages of each iterator run alone in a fresh process"})
                     first = False
 
 
@@ -949,7 +950,8 @@ def shard_idorder(st, cells_list, tier):
                 fd = first_diff(a, b)
                 st.violation("C12/layout-tie-broken-by-id", {"family": "idorder", "pdf": pdf, "cells": list(cells), "boxes_flow": flow},
                              fd.get("expected", fd), fd.get("observed", fd), "result depends on the numeric order of id() of the text boxes")
-    st.sample({"family": "idorder", "cells": list(cells_list[0]), "flows": list(FLOWS[tier])})
+    if tuple(cells_list[0]) == (0, 1, 2):
+        st.sample({"family": "idorder", "cells": list(cells_list[0]), "flows": list(FLOWS[tier]), "pdf": grid_doc(list(cells_list[0]))})
 
 
 # ============================================================================ runner
